@@ -182,6 +182,11 @@ class ValueCase(pfbase.CfgCase):
             return self.fail('C16:style-not-loadable', lambda: repr(e))
         rib = stubs.ribbon_arg(rw, w, self.native)
         try:
+            warm = self.params.get('warmup_style')
+            if warm:
+                # the same value rendered in another style first, same process
+                PKG.cpprint(self.value, stream=stubs.Sink(), width=79, ribbon_width=71,
+                            style=resolve_style(warm), end='')
             sink = stubs.Sink()
             PKG.cpprint(self.value, stream=sink, width=w, ribbon_width=rib, style=style, end='')
             written = sink.getvalue()
@@ -222,6 +227,7 @@ SKELETONS = {
     'empty-token': ['cat', 'a', ['T0', ''], ['T1', 'b']],
     'other-only': ['O', ['cat', 'a', ['O', 'b']]],
     'group': ['T0', ['grp', ['cat', 'aa', 'LINE', ['T1', 'bb'], 'LINE', 'cc']]],
+    'trailing-blank-in-token': ['cat', 'a', ['T0', 'x '], 'HARD', ['T1', ['cat', 'y', ['O', ' ']]]],
 }
 
 
@@ -350,6 +356,8 @@ VALUES = [
     {'src': "[vf.props.c02.Box([1], tag='x'), collections.OrderedDict([(1, 2)]), datetime.timedelta(days=-400, seconds=5)]"},
     {'src': "[sorted, dict, vf.stdvals.Shade.DARK, float('nan'), -1, frozenset([1]), vf.subcls.PlainInt(3)]"},
     {'src': "time.gmtime(0)"},
+    # comments whose last line is blank / whitespace only, annotated text ending in a blank
+    {'spec': ['list', [['c', 'text\n    ', LEAF('1')], ['c', '  ', LEAF("'elem'")], ['tc', 'tail \n ', ['list', [LEAF('2')]]]]]},
 ]
 
 
@@ -376,6 +384,13 @@ def cases(tier, seed):
                 continue
             out.append({'name': 'value%d:%s|default' % (vi, st), 'family': 'value',
                         'params': dict(v, style=st, slice='default'), 'budget': 60.0})
+    # two styles one after the other in the same process (per-process caches)
+    pairs = [('algol', 'algol_nu'), ('algol_nu', 'algol'), ('algol', 'bw'), ('default', 'dark'), ('light', 'default'),
+             ('colorful', 'murphy'), ('bw', 'algol')]
+    for a, b in (pairs if tier == 'thorough' else pairs[:4]):
+        for vi in (0, 4):
+            out.append({'name': 'value%d:%s-after-%s|default' % (vi, b, a), 'family': 'value',
+                        'params': dict(VALUES[vi], style=b, warmup_style=a, slice='default'), 'budget': 60.0})
     for sk in SKELETONS:
         for st in (['dark'] if tier == 'quick' else ['dark', 'light', 'default']):
             out.append({'name': 'doc:%s:%s' % (sk, st), 'family': 'doc',
